@@ -25,7 +25,7 @@ OUT=$(cd /verif && ./check $P $TIER 2>&1); CE=$?
 cp /verif/evidence/$P.json /tmp/seed/$P/evidence_with_change_$K.json 2>/dev/null
 cp /tmp/seed/$P.evidence.bak /verif/evidence/$P.json 2>/dev/null
 git -C /repo checkout -q -- . ; git -C /repo clean -fdq -e stgutgmain >/dev/null
-echo "$OUT" | grep -E "^(VIOLATION|KNOWN|HARNESS|BUILD|SUMMARY)" | cut -c1-400
+echo "$OUT" | grep -E "^(VIOLATION|KNOWN|HARNESS|BUILD|SUMMARY)" | cut -c1-400; [ $CE = 2 ] && echo "$OUT" | tail -5 | cut -c1-600
 echo "check_exit=$CE"
 D=/verif/seeded/$P-$K; mkdir -p $D; cp $SRC/patch.diff $D/patch.diff; cp $DEMO $D/$DN; [ -f $SRC/README.md ] && cp $SRC/README.md $D/README.md
 python3 - "$P" "$K" "$T" "$DW" "$DWO" "$CE" "$TIER" "$DDIR" "$D" <<'PY'
